@@ -235,4 +235,50 @@ theorem toNat_getLast (bs : List Bool) (h : bs ≠ []) :
       have : 2 * P * t = 2 * (P * t) := by grind
       omega
 
+/-! ### sign extension -/
+
+/-- Sign extension of a bit list to length `n`. -/
+def sextTo (xs : List Bool) (n : Nat) : List Bool := xs ++ List.replicate (n - xs.length) (xs.getLastD false)
+
+@[simp] theorem sextTo_length (xs : List Bool) (n : Nat) : (sextTo xs n).length = max xs.length n := by
+  simp [sextTo]; omega
+
+theorem sextTo_self (xs : List Bool) (n : Nat) (h : n ≤ xs.length) : sextTo xs n = xs := by
+  have : n - xs.length = 0 := by omega
+  simp [sextTo, this]
+
+theorem getLastD_append_replicate (xs : List Bool) (k : Nat) (t : Bool) (hk : 0 < k) :
+    (xs ++ List.replicate k t).getLastD false = t := by
+  obtain ⟨k', rfl⟩ : ∃ k', k = k' + 1 := ⟨k - 1, by omega⟩
+  rw [List.replicate_succ', ← List.append_assoc, List.getLastD_eq_getLast?]
+  simp
+
+/-- Sign extension does not change the two's complement value. -/
+theorem toInt_sextTo (xs : List Bool) (n : Nat) (hne : xs ≠ []) : toInt (sextTo xs n) = toInt xs := by
+  by_cases hk : n ≤ xs.length
+  · rw [sextTo_self xs n hk]
+  · have hkpos : 0 < n - xs.length := by omega
+    have hlast : (sextTo xs n).getLastD false = xs.getLastD false :=
+      getLastD_append_replicate xs _ _ hkpos
+    have hrep := toNat_replicate_add (n - xs.length) (xs.getLastD false)
+    have hlen : (sextTo xs n).length = n := by simp; omega
+    have hval : toNat (sextTo xs n) = toNat xs + 2 ^ xs.length * toNat (List.replicate (n - xs.length) (xs.getLastD false)) := by
+      simp only [sextTo]; exact toNat_append _ _
+    have hpow : 2 ^ n = 2 ^ xs.length * 2 ^ (n - xs.length) := by rw [← Nat.pow_add]; congr 1; omega
+    simp only [toInt, hlast, hlen, hval]
+    have hc1 : ((2 : Int) ^ n) = ((2 ^ n : Nat) : Int) := by simp
+    have hc2 : ((2 : Int) ^ xs.length) = ((2 ^ xs.length : Nat) : Int) := by simp
+    rw [hc1, hc2, hpow]
+    cases htop : xs.getLastD false with
+    | false => rw [htop] at hrep; simp at hrep ⊢
+    | true =>
+      rw [htop] at hrep
+      simp only [Bool.toNat_true, Nat.mul_one, if_true] at hrep ⊢
+      generalize toNat (List.replicate (n - xs.length) true) = R at *
+      generalize 2 ^ (n - xs.length) = K at *
+      generalize 2 ^ xs.length = P at *
+      have : P * K = P * R + P := by rw [← hrep, Nat.mul_add]; omega
+      push_cast
+      omega
+
 end Mpc.Bld
